@@ -334,7 +334,7 @@ func arrayLen(v ssa.Value) int64 {
 	return -1
 }
 
-func avInt(a an.AV) int64 { return an.Env{"x": a}.I("x") }
+func avInt(a an.AV) int64  { return an.Env{"x": a}.I("x") }
 func avStr(a an.AV) string { return an.Env{"x": a}.S("x") }
 
 // hashprefixFilterRequest is the decision table of hashprefix.Filter.FilterRequest.
